@@ -132,6 +132,7 @@ class SimA:
             wire_at.append(len(w.writer.out))
 
         wire_at = []
+        in_before = fresh_counters(self.path, w.T, w.S)[0]
         wire0 = len(w.writer.out)
         self.steps.before = before
         try:
@@ -142,6 +143,8 @@ class SimA:
             v = self._killed_states_consistent(snaps, ev, st)
         if v is None:
             v = self._wire_never_ahead_of_journal(snaps, wire_at, wire0, ev, st)
+        if v is None:
+            v = self._inbound_counter_never_behind(snaps, in_before, ev, st)
         for p_ in snaps:
             for q_ in (p_, p_ + "-journal"):
                 if os.path.exists(q_):
@@ -166,6 +169,29 @@ class SimA:
                 return {"signature": f"killed_between_journal_operations|outbound_row_without_counter:{ev[0]}_{ev[1]}",
                         "clause": "killed at any point while sending or receiving ... without ever reusing an outbound MsgSeqNum for a different message",
                         "detail": {"event": ev, "sql_step": i, "highest_outbound_row": mx, "stored_last_outbound": r[1], "state_before": st}}
+        return None
+
+    def _inbound_counter_never_behind(self, snaps, in_before, ev, st):
+        """Kill at any SQL-step boundary of this event: the stored inbound counter must lie between what was stored
+        before the event and what is stored after it - a new incarnation must not start BEHIND what the old one had
+        already made durable (it would ask for, and deliver, completed messages again)."""
+        in_after = fresh_counters(self.path, self.w.T, self.w.S)[0]
+        lo, hi = min(in_before, in_after), max(in_before, in_after)
+        for i, path in enumerate(snaps):
+            con = sqlite3.connect(path, timeout=0)
+            try:
+                r = con.execute("SELECT inboundSeqNo FROM session WHERE targetCompId=? AND senderCompId=?", (self.w.T, self.w.S)).fetchone()
+            finally:
+                con.close()
+            if r is None:
+                continue
+            cur = r[0] + 1
+            if cur < lo or cur > hi:
+                kind = "gap_fill" if ev[1].startswith("gapfill") else ("sequence_reset" if ev[1].startswith("reset") else ev[1])
+                return {"signature": f"killed_between_journal_operations|inbound_counter_outside_before_after:{kind}",
+                        "clause": "killed at any point while ... receiving ... the restored counters equal those the old object held for everything it had completed",
+                        "detail": {"event": ev, "sql_step": i, "stored_next_in_at_kill": cur, "stored_before_event": in_before,
+                                   "stored_after_event": in_after, "state_before": st}}
         return None
 
     def _wire_never_ahead_of_journal(self, snaps, wire_at, wire0, ev, st):
